@@ -27,6 +27,7 @@ from concurrent.futures import ProcessPoolExecutor
 import multiprocessing as mp
 
 ROOT = os.path.dirname(os.path.dirname(os.path.abspath(__file__)))
+OUT = os.environ.get("VERIF_OUT") or ROOT      # evidence/ and replays/ are written here (the mutant audit redirects it)
 
 
 class Violation(Exception):
@@ -98,20 +99,59 @@ def load_prop(pid):
 def execute(mod, case):
     """Returns (info, None) or (None, (sig, message)). Anything escaping run_case other than a
     FATAL error is a violation: on the unchanged tree run_case never raises (checked at many
-    seeds), so an exception here is the code under test misbehaving."""
+    seeds), so an exception here is the code under test misbehaving.
+
+    A case that exceeds CASE_TIMEOUT_S is retried (twice): a deterministic non-termination hangs every time, whereas a
+    rare deadlock inside multiprocessing (fork while pool handler threads are alive) does not repeat - only the former is
+    reported, as signature 'hang'."""
+    outcome = None
+    for attempt in range(3):
+        outcome = _execute_once(mod, case)
+        if outcome[1] is None or outcome[1][0] != "hang":
+            return outcome
+        _reap_children()
+    return outcome
+
+
+def _reap_children():
+    try:
+        for ch in mp.active_children():
+            ch.terminate()
+        for ch in mp.active_children():
+            ch.join(timeout=2)
+    except Exception:
+        pass
+
+
+def quiesce(max_wait=1.0):
+    """Wait until helper threads of a finished multiprocessing.Pool are gone, so that the next fork happens from a
+    single-threaded process (used by the properties that drive Pool-based code)."""
+    global _thread_baseline
+    end = time.time() + max_wait
+    while threading.active_count() > _thread_baseline and time.time() < end:
+        time.sleep(0.002)
+    if threading.active_count() > _thread_baseline:      # stuck helper threads of an abandoned pool: stop waiting for them
+        _thread_baseline = threading.active_count()
+
+
+_thread_baseline = 1
+
+
+def _execute_once(mod, case):
     armed = False
+    limit = int(getattr(mod, "CASE_TIMEOUT_S", CASE_TIMEOUT_S))
     try:
         if threading.current_thread() is threading.main_thread():
             signal.signal(signal.SIGALRM, _on_alarm)
-            signal.alarm(CASE_TIMEOUT_S)
+            signal.alarm(limit)
             armed = True
         info = mod.run_case(case) or {}
         return info, None
     except FATAL:
         raise
     except CaseTimeout:
-        return None, ("hang", f"the case did not finish within {CASE_TIMEOUT_S}s (normal cases take milliseconds): the code under "
-                              f"test does not terminate")
+        return None, ("hang", f"the case did not finish within {limit}s in 3 attempts (normal cases take milliseconds): the "
+                              f"code under test does not terminate")
     except Violation as v:
         return None, (signature_of(v), v.message)
     except BaseException as e:  # noqa
@@ -300,11 +340,14 @@ def _random_shard(args):
             if time.time() > deadline:
                 budget_hit = True
                 return
+            if "hang" in skip:      # a hang was already reported by this shard: every further one would cost a full timeout
+                return
+            if state["sig"] == "hang":      # hypothesis replaying / shrinking the hanging example: do not wait again
+                raise Violation("hang", state["msg"])
             info, bad = execute(mod, case)
             if bad:
                 if bad[0] in skip:
                     st.evaluations += 1
-                    st.excluded += 1
                     return
                 if state["sig"] is None or state["sig"] == bad[0]:
                     state.update(last=case, sig=bad[0], msg=bad[1])
@@ -327,7 +370,7 @@ def _random_shard(args):
         except BaseException as e:  # hypothesis wrapper errors (Flaky etc.)
             if state["sig"] is None:
                 raise
-        if state["sig"] is None or budget_hit:
+        if state["sig"] is None or budget_hit or "hang" in skip:
             break
         small = minimise(mod, state["last"], state["sig"], deadline=deadline + 60)
         failures[state["sig"]] = (small, state["msg"])
@@ -440,11 +483,11 @@ def run_property(pid, tier, seed, jobs, budget_s, out=print):
         except FATAL:
             pass
 
-    os.makedirs(os.path.join(ROOT, "replays"), exist_ok=True)
+    os.makedirs(os.path.join(OUT, "replays"), exist_ok=True)
     viol_lines = []
     for s, (case, msg) in sorted(new.items()):
         rel = os.path.join("replays", f"{pid}-{s}.json")
-        with open(os.path.join(ROOT, rel), "w") as fh:
+        with open(os.path.join(OUT, rel), "w") as fh:
             json.dump({"property": pid, "signature": s, "message": msg, "case": case}, fh, indent=1, default=str)
         viol_lines.append(f"VIOLATION property={pid} replay={rel}")
         out(f"  [{s}] {msg[:300]}")
@@ -477,8 +520,8 @@ def run_property(pid, tier, seed, jobs, budget_s, out=print):
     }
     if not evidence["coverage"]["exhaustive"]:
         evidence["coverage"]["exhaustive"] = False
-    os.makedirs(os.path.join(ROOT, "evidence"), exist_ok=True)
-    with open(os.path.join(ROOT, "evidence", f"{pid}.json"), "w") as fh:
+    os.makedirs(os.path.join(OUT, "evidence"), exist_ok=True)
+    with open(os.path.join(OUT, "evidence", f"{pid}.json"), "w") as fh:
         json.dump(evidence, fh, indent=1, default=str)
 
     for line in known_lines:
